@@ -17,7 +17,7 @@ LEVEL = "proof"
 def build_pool(rng, name, dis, specs, nspec):
     e = dis.endian()
     ml = dis.maxlen
-    pool = {"valid": [], "random": [], "truncated": [], "prefix": [], "raiser": [], "prefix+raiser": [], "prefix+truncated": []}
+    pool = {"valid": [], "random": [], "truncated": [], "prefix": [], "raiser": [], "prefix+raiser": [], "prefix+truncated": [], "prefix+valid": []}
     pfx = [s for s in specs if s.pfx is True]
     sample = specs if nspec >= len(specs) else rng.sample(specs, nspec)
     for s in sample:
@@ -31,8 +31,16 @@ def build_pool(rng, name, dis, specs, nspec):
         pb = c04.spec_bytes(rng, s, e, ml)
         pool["prefix"].append(pb)
         pool["prefix"].append(pb + c04.spec_bytes(rng, rng.choice(pfx), e, ml))
-        for v in rng.sample(pool["valid"], min(6, len(pool["valid"]))):
-            pool["prefix+truncated"].append(pb + v[:rng.randrange(0, 2)])
+        free = s.mask.ival != (1 << s.mask.size) - 1
+        for v in (pool["valid"] if free else rng.sample(pool["valid"], min(60, len(pool["valid"])))):
+            # the same instruction bytes behind the prefix: complete, and cut after 0, 1, 2, ... bytes
+            pool["prefix+valid"].append(pb + v)
+            if free:
+                # a prefix with free bits (REX): the same instruction behind several values of them
+                for _ in range(3):
+                    pool["prefix+valid"].append(c04.spec_bytes(rng, s, e, ml) + v)
+            for n in sorted({0, 1, 2, max(0, len(v) - ml - 1), rng.randrange(0, max(1, min(len(v), ml)))}):
+                pool["prefix+truncated"].append(pb + v[:n])
     return pool, pfx
 
 
@@ -41,6 +49,33 @@ def fresh(dis, b):
     o = c04.outcome(lambda: dis(b))
     isa.reset_pending(dis)
     return o
+
+
+def fresh_many(dis, blobs):
+    """outcomes of decoding each byte string from the cleared pending slot, computed in a forked child: the calling process
+    decodes nothing, so whatever process-wide state (caches, shared operand objects) these calls leave dies with the child"""
+    import os
+    import pickle
+    r, w = os.pipe()
+    pid = os.fork()
+    if pid == 0:
+        code = 0
+        try:
+            os.close(r)
+            out = []
+            for b in blobs:
+                out.append(fresh(dis, b))
+            with os.fdopen(w, "wb") as f:
+                pickle.dump(out, f)
+        except BaseException:
+            code = 1
+        os._exit(code)
+    os.close(w)
+    with os.fdopen(r, "rb") as f:
+        data = f.read()
+    os.waitpid(pid, 0)
+    out = pickle.loads(data)
+    return dict(zip(blobs, out))
 
 
 def worker(args):
@@ -56,35 +91,43 @@ def worker(args):
         pool, pfx = build_pool(rng, name, dis, specs, nspec)
         # fresh outcomes (cleared pending slot), computed twice in different orders to expose other global state
         allb = sorted({b for v in pool.values() for b in v})
-        F = {b: fresh(dis, b) for b in allb}
-        for b in reversed(allb):
-            o = fresh(dis, b)
-            if o != F[b] and len(res["leak2"]) < 3:
-                res["leak2"].append({"isa": name, "mode": k, "bytes": b.hex(), "first": F[b], "second": o})
+        extra = []
         if pfx:
             # setup code that raises is rare on prefix ISAs: look for it under every specification
             e, ml = dis.endian(), dis.maxlen
             for s in specs:
                 for _ in range(4):
-                    b = c04.spec_bytes(rng, s, e, ml) + bytes(rng.getrandbits(8) for _ in range(rng.choice([2, ml])))
-                    if b not in F:
-                        o = fresh(dis, b)
-                        if o is not None and "raised" in o:
-                            F[b] = o
-                            allb.append(b)
+                    extra.append(c04.spec_bytes(rng, s, e, ml) + bytes(rng.getrandbits(8) for _ in range(rng.choice([2, ml]))))
+        # reference outcomes: each pass runs in its own forked child, in a different order - an outcome that depends on
+        # the order (a cache, a shared operand object, a mode switch written by an earlier call) shows as a difference
+        F = fresh_many(dis, allb + extra)
+        rev = list(reversed(allb))
+        F2 = fresh_many(dis, rev)
+        shuf = list(allb)
+        random.Random(seed ^ 0xABCDE).shuffle(shuf)
+        F3 = fresh_many(dis, shuf)
+        for b in allb:
+            for o in (F2[b], F3[b]):
+                if o != F[b] and len(res["leak2"]) < 3:
+                    res["leak2"].append({"isa": name, "mode": k, "bytes": b.hex(), "first": F[b], "second": o})
+        for b in extra:
+            if F[b] is not None and "raised" in F[b]:
+                allb.append(b)
+            elif b not in pool["valid"]:
+                del F[b]
         raisers = [b for b in allb if F[b] is not None and "raised" in F[b]]
         res["raisers"] = len(raisers)
         pool["raiser"] = raisers[:200]
+        more = []
         for pb in pool["prefix"][:12]:
             for r in raisers[:12]:
                 b = pb + r
                 pool["prefix+raiser"].append(b)
-                F[b] = fresh(dis, b)
-        for b in pool["prefix+truncated"]:
-            if b not in F:
-                F[b] = fresh(dis, b)
+                more.append(b)
+        more += [b for b in pool["prefix+truncated"] if b not in F]
+        F.update(fresh_many(dis, more))
         kinds = [kd for kd, v in pool.items() if v]
-        weights = {"valid": 5, "random": 2, "truncated": 2, "prefix": 3, "raiser": 3, "prefix+raiser": 4, "prefix+truncated": 3}
+        weights = {"valid": 5, "random": 2, "truncated": 2, "prefix": 3, "raiser": 3, "prefix+raiser": 4, "prefix+truncated": 3, "prefix+valid": 4}
         for h in range(nhist):
             isa.reset_pending(dis)
             hist = []
@@ -146,7 +189,19 @@ def check(run):
                        "prefix, truncated, raising or non-decoding call")
     run.static_part()
     cpus, failed = isa.load_all()
-    # corpus of minimised historical failures runs first
+    import multiprocessing as mp
+    tasks = []
+    for name, cpu in sorted(cpus.items()):
+        dis = cpu.disassemble
+        for k in range(len(dis.specs)):
+            haspfx = any(s.pfx is True for s in isa.flatten_tree(dis.specs[k]))
+            reps = (2 if haspfx else 1) * (1 if quick else 6)
+            for r in range(reps):
+                tasks.append((name, k, run.seed * 977 + 13 * len(tasks), 150 if quick else 600, (60 if quick else 400) * (3 if haspfx else 1),
+                              25, 60 if r == 0 else 0))
+    with mp.get_context("fork").Pool(14, maxtasksperchild=1) as pool:
+        results = pool.map(worker, tasks, chunksize=1)
+    # corpus of minimised historical failures (after the pool: the parent must not decode before it forks)
     import glob
     for f in sorted(glob.glob(str(common.VERIF / "corpus" / "C11" / "*.json"))):
         c = json.load(open(f))
@@ -164,18 +219,6 @@ def check(run):
         if o != fr:
             run.violation("history-dependence|%s_m%d" % (c["isa"], c["mode"]), "corpus case %s: outcome depends on earlier calls" % f.split("/")[-1],
                           dict(c, outcome_from_cleared_state=fr, outcome_after_history=o))
-    import multiprocessing as mp
-    tasks = []
-    for name, cpu in sorted(cpus.items()):
-        dis = cpu.disassemble
-        for k in range(len(dis.specs)):
-            haspfx = any(s.pfx is True for s in isa.flatten_tree(dis.specs[k]))
-            reps = (2 if haspfx else 1) * (1 if quick else 6)
-            for r in range(reps):
-                tasks.append((name, k, run.seed * 977 + 13 * len(tasks), 150 if quick else 600, (60 if quick else 400) * (3 if haspfx else 1),
-                              25, 60 if r == 0 else 0))
-    with mp.get_context("fork").Pool(14) as pool:
-        results = pool.map(worker, tasks, chunksize=1)
     groups = {}
     for r in results:
         run.cov["evaluations"] += r["calls"]
